@@ -310,6 +310,29 @@ def r13_4(chk):
     chk.floor("R13.4", 1, "one sibling pair")
 
 
+def check_identifier_form(chk, rule):
+    """the overwrite check inside DataStoreDirectory._write is made on the identifier the caller passed (the form under
+    which `in` answers for completed records), before that name is rewritten -- used by R13.5 and, for resume, R19.5"""
+    m = chk.repo.module(DS)
+    fn = m.func("DataStoreDirectory._write")
+    g = build(fn)
+    checks = []
+    for nd in g.nodes:
+        for e in own_exprs(nd):
+            for c in ast.walk(e):
+                if isinstance(c, ast.Call) and (norm(c.func) == "self._check_writable" or (isinstance(c.func, ast.Attribute) and isinstance(c.func.value, ast.Call) and call_name(c.func.value) == "super" and c.func.attr in ("write", "write_not_completed", "write_log"))):
+                    checks.append((nd, c))
+    if not checks:
+        chk.ok(rule, key(m, "DataStoreDirectory._write", "overwrite check on the caller's identifier"), m.loc(fn), "no check inside _write (the public writes check first)", nontrivial=False)
+        return
+    for nd, c in checks:
+        arg = next((kw.value for kw in c.keywords if kw.arg == "unique_id"), c.args[0] if c.args else None)
+        plain = isinstance(arg, ast.Name) and arg.id == "unique_id"
+        rebinds = [n2 for n2 in g.nodes if n2.kind == "stmt" and isinstance(n2.ast, ast.Assign) and any(isinstance(t, ast.Name) and t.id == "unique_id" for t in n2.ast.targets)]
+        before = plain and all(not g.dominated_by(nd, [r])[0] for r in rebinds)
+        chk.decide(bool(before), rule, key(m, "DataStoreDirectory._write", "overwrite check on the caller's identifier"), m.loc(c), "checked before the name is rewritten", f"`{norm(c)[:80]}` checks {'a derived name' if not plain else 'the name after it was rewritten'}: `in` answers for the identifiers of completed records, so a stored name such as not_completed/<id>.json is 'found' when only the not-completed record exists -- in append mode the re-run of a failed input is then refused and a resumed apply_to stops there")
+
+
 def r13_5(chk):
     chk.rule("R13.5", "_check_writable raises for READONLY and for an existing identifier in APPEND mode; every abstract write of the base class calls it")
     m = chk.repo.module(DS)
@@ -348,7 +371,8 @@ def r13_5(chk):
         wr = g.nodes_containing(lambda x: isinstance(x, ast.Call) and norm(x.func) == "self._write")
         ok = bool(wr) and (inner_ok or (bool(own) and all(g.dominated_by(w, own)[0] for w in wr)))
         chk.decide(ok, "R13.5", key(m, f"DataStoreDirectory.{meth}", "full check before the storage write"), m.loc(f2), "_check_writable (READONLY and APPEND-overwrite) precedes the file write", "no _check_writable on the way to the file write: an APPEND store silently overwrites an existing record")
-    chk.floor("R13.5", 11, "2 guards + 3 base writes + 3 sqlite writes + 3 directory writes")
+    check_identifier_form(chk, "R13.5")
+    chk.floor("R13.5", 12, "2 guards + 3 base writes + 3 sqlite writes + 3 directory writes + identifier form")
 
 
 def r13_6(chk):
